@@ -133,13 +133,16 @@ PROPS["C07"] = doc_prop(
 
 PROPS["C08"] = doc_prop(
     "C08",
-    quick=[bfs("MC_C08", "C08_quick"), sim("MC_C08", "C08_sim", 1500, 12)],
-    thorough=[bfs("MC_C08", "C08_thorough"), sim("MC_C08", "C08_sim", 20000, 12)],
+    quick=[bfs("MC_C08", "C08_quick"), bfs("MC_C08", "C08_linked"), sim("MC_C08", "C08_sim", 1500, 12)],
+    thorough=[bfs("MC_C08", "C08_thorough"), bfs("MC_C08", "C08_linked"), sim("MC_C08", "C08_sim", 20000, 12)],
     sample_quick=24000, sample_thorough=500000,
     rule="cases = all interleavings of kept/dropped text with media up to the bound; "
          "non-trivial = the page had media and both retained and dropped text",
     nontrivial_key="media_mixed", small=4,
-    design=dict(quick=[bfs("MC_DocFilters", "DocFilters_q")], thorough=[bfs("MC_DocFilters", "DocFilters_t", timeout=3000)]))
+    design=dict(quick=[bfs("MC_DocFilters", "DocFilters_q"), bfs("MC_Convert", "Convert_q"),
+                       bfs("MC_Convert", "ConvertEmpty_defect", expect_violation=True)],
+                thorough=[bfs("MC_DocFilters", "DocFilters_t", timeout=3000), bfs("MC_Convert", "Convert_t", timeout=3000),
+                          bfs("MC_Convert", "ConvertEmpty_defect", expect_violation=True)]))
 
 def _c09_wordcount_stage():
     from props_C20 import reps
